@@ -163,6 +163,15 @@ def lean_type(t):
     return t
 
 
+def mk_prod(types):
+    """the type tag of a tuple of the given component types: right-nested `Prod A (Prod B C)`"""
+    types = list(types)
+    if len(types) == 1:
+        return types[0]
+    a, b = types[0], mk_prod(types[1:])
+    return 'Prod ' + ' '.join(f'({x})' if ' ' in x else x for x in (a, b))
+
+
 def _paren(s):
     return f'({s})' if ' ' in s and not s.startswith('(') else s
 
@@ -306,6 +315,7 @@ class FnTr:
         c.fresh = self.fresh
         c.pending = []
         c.on_fall = self.on_fall
+        c.on_break = getattr(self, 'on_break', None)
         c.aux = self.aux         # shared: loops met in any branch are emitted once, before the function
         c.localfns = dict(getattr(self, 'localfns', {}))
         c.no_return = getattr(self, 'no_return', False)
@@ -347,6 +357,8 @@ class FnTr:
     def always_returns(self, stmts):
         for s in stmts:
             if isinstance(s, (ast.Return, ast.Raise)):
+                return True
+            if isinstance(s, ast.Break) and getattr(self, 'on_break', None) is not None:
                 return True
             if isinstance(s, ast.If):
                 st = self.static_test(s.test)
@@ -452,6 +464,8 @@ class FnTr:
             return self.while_value(s, rest)          # inside a loop body: the loop is a function of its state
         if isinstance(s, ast.While):
             return self.while_stmt(s, rest)
+        if isinstance(s, ast.Break) and getattr(self, 'on_break', None) is not None:
+            return self.on_break(self)          # leave the innermost translated loop with the current state
         raise Unsupported(f'`{self.inst.qual}`: statement `{type(s).__name__}`: {ast.unparse(s)[:80]}')
 
     def is_super_init(self, e, any_args=False):
@@ -1075,13 +1089,20 @@ class FnTr:
             if isinstance(n, ast.Expr) and isinstance(n.value, ast.Call) and isinstance(n.value.func, ast.Attribute) \
                     and n.value.func.attr in ('add', 'append', 'pop') and isinstance(n.value.func.value, ast.Name):
                 assigned.add(n.value.func.value.id)
-            if isinstance(n, (ast.Break, ast.Continue, ast.Try, ast.With)):
+            if isinstance(n, (ast.Continue, ast.Try, ast.With)) or isinstance(n, ast.Break) and not self.u.hooks.get('value_semantics'):
                 raise Unsupported(f'`{self.inst.qual}`: `{type(n).__name__}` inside a loop body')
+        has_break = _has_break(s.body)       # `break`: the code after the loop becomes a definition of its own (`<loop>.after`)
         targets = [s.target.id] if isinstance(s.target, ast.Name) else \
             [t.id for t in s.target.elts if isinstance(t, ast.Name)] if isinstance(s.target, ast.Tuple) else None
         if not targets or (isinstance(s.target, ast.Tuple) and len(targets) != len(s.target.elts)):
             raise Unsupported(f'`{self.inst.qual}`: loop target `{ast.unparse(s.target)}`')
-        if any(isinstance(n, ast.Name) and n.id in assigned for n in ast.walk(s.iter)):
+        # (the iterable is evaluated once, before the loop: a name it reads may be *rebound* by the body — unit hook
+        # `value_semantics` — but not mutated in place)
+        inplace = {n.value.func.value.id for n in ast.walk(ast.Module(body=s.body, type_ignores=[]))
+                   if isinstance(n, ast.Expr) and isinstance(n.value, ast.Call) and isinstance(n.value.func, ast.Attribute)
+                   and isinstance(n.value.func.value, ast.Name)}
+        if any(isinstance(n, ast.Name) and n.id in (inplace if self.u.hooks.get('value_semantics') else assigned)
+               for n in ast.walk(s.iter)):
             raise Unsupported(f'`{self.inst.qual}`: the loop body changes what `{ast.unparse(s.iter)}` iterates over')
         state = [n for n in self.env if n in assigned and n not in targets]
         fixed = [n for n in self.env if n not in state and self.env[n].typ not in ('None', 'Kw')]
@@ -1108,10 +1129,29 @@ class FnTr:
         after_tr = aux.sub()
         after_tr.fresh = aux.fresh
         after_tr.on_fall = self.on_fall
+        after_tr.on_break = getattr(self, 'on_break', None)
         after = after_tr.block(rest)
         # item :: items : the body
         body_tr = aux.sub()
         body_tr.fresh = after_tr.fresh
+        body_tr.on_break = None
+        after_def = []
+        # `prune_loop_params`: a variable in scope that neither the body nor the code after the loop reads is not handed to
+        # the auxiliary definitions (an extra local in front of the loop does not change their signatures); the unchanged
+        # variables are marked in the recursive calls and the marks resolved once both texts are known
+        prune = bool(self.u.hooks.get('prune_loop_params'))
+        mark = (lambda t: '\x01' + t + '\x02') if prune else (lambda t: t)
+        if has_break:
+            def leave(tr):
+                return ' '.join([f'{loop}.after'] + ctx + [mark(tr.env[n].text) for n in fixed] + [_paren(tr.env[n].text) for n in state])
+            after_def = [f'/-- the code after the `for {ast.unparse(s.target)} in {ast.unparse(s.iter)}` loop of `{self.inst.qual}`'
+                         ' (reached when the list is exhausted and by `break`), from the state ' + (', '.join(state) or 'none') + ' -/',
+                         f'def {loop}.after ' + ' '.join([f'({n} : {t})' for n, t in self.u.ctx_params] +
+                                                        [mark(f'({n} : {lean_type(t)})') for n, t in fixed_b] +
+                                                        [f'({n} : {lean_type(t)})' for n, t in state_b]) +
+                         f' : {lean_type(self.inst.ret)} :=', _indent(after), '']
+            after = leave(aux)
+            body_tr.on_break = leave
         if isinstance(s.target, ast.Name):
             body_tr.env[targets[0]] = Val(item, elem, path=targets[0])
         else:
@@ -1125,15 +1165,28 @@ class FnTr:
                 body_tr.env[n] = Val(proj, t, path=n)
 
         def next_iteration(tr):
-            args = [tr.env[n].text for n in fixed] + [items] + [_paren(tr.env[n].text) for n in state]
+            args = [mark(tr.env[n].text) for n in fixed] + [items] + [_paren(tr.env[n].text) for n in state]
             return ' '.join([loop] + ctx + args)
         body_tr.on_fall = next_iteration
         body = body_tr.block(list(s.body))
         self.fresh = body_tr.fresh
-        binders = ' '.join([f'({n} : {t})' for n, t in self.u.ctx_params] + [f'({n} : {lean_type(t)})' for n, t in fixed_b])
+        binders = ' '.join([f'({n} : {t})' for n, t in self.u.ctx_params] + [mark(f'({n} : {lean_type(t)})') for n, t in fixed_b])
+        if prune:
+            import re as _re
+            seen = _re.sub('\x01[^\x02]*\x02', '', '\n'.join(after_def + [after, body]))
+            dead = [i for i, (nm, _t) in enumerate(fixed_b)
+                    if not _re.search(r"(?<![\w.'])" + _re.escape(nm) + r"(?![\w'])", seen)]
+
+            def resolve(text):
+                for i in dead:
+                    nm, t = fixed_b[i]
+                    text = text.replace(' \x01' + nm + '\x02', '').replace(' \x01' + f'({nm} : {lean_type(t)})' + '\x02', '')
+                return text.replace('\x01', '').replace('\x02', '')
+            after_def, after, body, binders = [resolve(x) for x in after_def], resolve(after), resolve(body), resolve(binders)
+            fixed = [n for i, n in enumerate(fixed) if i not in dead]
         sig = ' → '.join([f'List {_paren(lean_type(elem))}'] + [lean_type(t) for _n, t in state_b] + [lean_type(self.inst.ret)])
         pat_state = ''.join(f', {n}' for n, _t in state_b)
-        self.aux[slot] = ('\n'.join([
+        self.aux[slot] = ('\n'.join(after_def + [
             f'/-- the `for {ast.unparse(s.target)} in {ast.unparse(s.iter)}` loop of `{self.inst.qual}`: state ' +
             (', '.join(state) or 'none') + ' -/',
             f'def {loop} {binders} : {sig}',
@@ -1687,6 +1740,8 @@ class FnTr:
             return f'({v.text} != 0)'
         if v.typ == 'Nat':
             return f'({v.text} != (0 : Nat))'
+        if v.typ == 'R':
+            return f'({v.text} != 0)'          # a float is falsy exactly when it is zero (no NaN: floats are exact rationals)
         if v.typ in self.u.hooks.get('always_truthy', ()):
             return 'true'
         if v.typ.startswith('List '):
@@ -1767,6 +1822,17 @@ class FnTr:
         if isinstance(e, ast.BoolOp) and self.has_optional_test(e):
             # `x is not None and x.f()` as a value: the same narrowing as in an `if` test
             return Val('(' + self.branch(e, lambda tr: 'true', lambda tr: 'false') + ')', 'Bool')
+        if isinstance(e, ast.BoolOp) and self.u.hooks.get('operand_boolop'):
+            pend, fresh = list(self.pending), self.fresh
+            vals = [self.expr(v) for v in e.values]
+            if vals[0].typ.startswith('List ') and all(v.typ == vals[0].typ for v in vals):
+                # `xs or ys` returns an operand: the first truthy (non-empty) one, else the last; `and`: the first falsy one
+                txt = vals[-1].text
+                for v in reversed(vals[:-1]):
+                    c = f'!({v.text}).isEmpty' if isinstance(e.op, ast.Or) else f'({v.text}).isEmpty'
+                    txt = f'(if {c} then {v.text} else {txt})'
+                return Val(txt, vals[0].typ)
+            self.pending, self.fresh = pend, fresh
         if isinstance(e, ast.BoolOp):
             vals = [self.expr(v) for v in e.values]
             if not all(v.typ == 'Bool' for v in vals):
@@ -1892,6 +1958,8 @@ class FnTr:
             vals = [self.expr(v) for v in e.elts]
             if len(vals) == 2 and vals[0].typ == vals[1].typ:
                 return Val(f'({vals[0].text}, {vals[1].text})', 'Pair ' + vals[0].typ)
+            if len(vals) >= 2 and self.u.hooks.get('value_semantics') and all(v.typ not in ('None', 'Kw') for v in vals):
+                return Val('(' + ', '.join(v.text for v in vals) + ')', mk_prod(v.typ for v in vals))      # right-nested
             if len(vals) >= 2 and 'tuples' in self.u.hooks:
                 return Val('(' + ', '.join(v.text for v in vals) + ')', 'Prod ' + ' '.join(_paren(v.typ) for v in vals))
             if len(vals) >= 3 and all(v.typ == vals[0].typ for v in vals) and ' ' not in vals[0].typ:
@@ -1976,6 +2044,9 @@ class FnTr:
                     r = Val(f'(GV.Py.getIdx {_paren(v.text)} {sl.value})', v.typ[5:])
                     r.raises = True                      # IndexError when the list is too short
                     return r
+                if isinstance(sl, ast.Slice) and sl.step is None and _int_const(sl.upper) == -1 \
+                        and (sl.lower is None or _int_const(sl.lower) == 0) and self.u.hooks.get('value_semantics'):
+                    return Val(f'(({v.text}).dropLast)', v.typ)              # `xs[:-1]`, `xs[0:-1]`
                 neg = (lambda x: x.operand.value if isinstance(x, ast.UnaryOp) and isinstance(x.op, ast.USub) and isinstance(x.operand, ast.Constant)
                        and isinstance(x.operand.value, int) and not isinstance(x.operand.value, bool) and x.operand.value >= 1 else None)
                 if neg(sl) is not None:
@@ -1987,6 +2058,11 @@ class FnTr:
                 if isinstance(sl, ast.Slice) and sl.lower is None and sl.upper is None and neg(sl.step) == 1:
                     return Val(f'(({v.text}).reverse)', v.typ)                                   # `xs[::-1]`
             raise Unsupported(f'`{self.inst.qual}`: subscript `{ast.unparse(e)}` of {v.typ}')
+        if isinstance(e, (ast.ListComp, ast.GeneratorExp)) and self.u.hooks.get('value_semantics') and self.is_map_comp(e):
+            return self.map_comp(e)
+        if isinstance(e, ast.SetComp) and self.u.hooks.get('value_semantics') and self.is_map_comp(e):
+            v = self.map_comp(e)                      # `{f(x) for x in xs}` is `set(f(x) for x in xs)`
+            return Val(f'(GV.Obj.dedupBy {self.mem_fn(v.typ[5:])} {_paren(v.text)})', 'Set ' + v.typ[5:])
         if isinstance(e, ast.ListComp):
             return self.list_comp(e)
         if isinstance(e, ast.SetComp) and self.u.hooks.get('set_of'):
@@ -2059,6 +2135,15 @@ class FnTr:
             tmpl, typ = self.u.abstract[(b.typ, '__contains__', (a.typ,))]
             r = Val('(' + tmpl.format(_paren(b.text), _paren(a.text)) + ')', typ)
             return r if isinstance(op, ast.In) else Val(f'(!{r.text})', 'Bool')
+        if isinstance(op, (ast.In, ast.NotIn)) and b.typ == 'Pair ' + a.typ and self.u.hooks.get('value_semantics') \
+                and self.eq_fn(a.typ, probe=True):
+            # `x in (a, b)`: a tuple is searched left to right with `is` / `==` (identical objects are equal: no NaN)
+            f = self.eq_fn(a.typ)
+            r = Val(f'(({f} {_paren(a.text)} ({b.text}).1) || ({f} {_paren(a.text)} ({b.text}).2))', 'Bool')
+            return r if isinstance(op, ast.In) else Val(f'(!{r.text})', 'Bool')
+        if isinstance(op, (ast.Is, ast.IsNot)) and a.typ == b.typ and a.typ in self.u.hooks.get('identity_types', ()):
+            # `type(x) is type(y)`: class objects are compared by identity, i.e. the kinds are the same
+            return Val(f'({a.text} {"==" if isinstance(op, ast.Is) else "!="} {b.text})', 'Bool')
         if isinstance(op, (ast.In, ast.NotIn)):
             cls = self.u.class_of(b.typ)
             if not cls:
@@ -2097,6 +2182,9 @@ class FnTr:
                 r = hook(self, a, b)
                 if r is not None:
                     return r if isinstance(op, ast.Eq) else Val(f'(!{r.text})', 'Bool')
+            if self.u.hooks.get('value_semantics') and _same_type(a.typ, b.typ) and self.eq_fn(a.typ, probe=True):
+                r = Val(f'({self.eq_fn(a.typ)} {_paren(a.text)} {_paren(b.text)})', 'Bool')
+                return r if isinstance(op, ast.Eq) else Val(f'(!{r.text})', 'Bool')
         raise Unsupported(f'comparison {a.typ} {type(op).__name__} {b.typ}')
 
     def unify_num(self, a, b):
@@ -2220,6 +2308,31 @@ class FnTr:
                 if v.typ == 'Int':
                     return Val(f'({v.text} : Rat)', 'R')
                 raise Unsupported(f'float() of {v.typ}')
+            if f.id == 'hash' and len(e.args) == 1 and self.u.hooks.get('hash_keys'):
+                return self.key_of_expr(e.args[0])    # the *key* of the value handed to hash() (see `key_of`)
+            if f.id == 'range' and len(e.args) in (1, 2) and self.u.hooks.get('value_semantics'):
+                vals = [self.expr(a) for a in e.args]
+                if all(v.typ == 'Int' for v in vals):
+                    lo = vals[0].text if len(vals) == 2 else '(0 : Int)'
+                    return Val(f'(GV.Py.range {lo} {vals[-1].text})', 'List Int')
+                raise Unsupported('range() of ' + ', '.join(v.typ for v in vals))
+            if f.id in ('set', 'frozenset') and len(e.args) == 1 and self.u.hooks.get('value_semantics'):
+                v = self.expr(e.args[0])
+                if v.typ.startswith('List ') and '?' not in v.typ:
+                    # building a set from an iterable: an element equal (hash and `==`) to one already there is dropped
+                    return Val(f'(GV.Obj.dedupBy {self.mem_fn(v.typ[5:])} {_paren(v.text)})', 'Set ' + v.typ[5:])
+                raise Unsupported(f'{f.id}() of {v.typ}')
+            if f.id == 'tuple' and len(e.args) == 1 and self.u.hooks.get('value_semantics'):
+                v = self.expr(e.args[0])
+                if v.typ.startswith('List ') and '?' not in v.typ:
+                    return v                          # the same sequence of items (a tuple is compared / hashed item by item)
+                raise Unsupported(f'{f.id}() of {v.typ}')
+            if f.id == 'type' and len(e.args) == 1 and 'type_of' in self.u.hooks:
+                v = self.expr(e.args[0])
+                spec = self.u.hooks['type_of'].get(v.typ)
+                if spec is None:
+                    raise Unsupported(f'type() of {v.typ}')
+                return Val(spec[0].format(v.text), spec[1])
             if f.id == 'hash' and len(e.args) == 1:
                 return self.expr(e.args[0])           # the value handed to hash()
             if f.id == 'set' and not e.args:
@@ -2455,6 +2568,184 @@ class FnTr:
             return v
         self.fresh = inner.fresh
         return Val(f'(({xs.text}).{which} (fun {x} => {c}))', 'Bool')
+
+
+    # ---- `[f(x) for x in xs]`, `(f(x, y) for x, y in pairs)` ---------------------------------------------
+    def is_map_comp(self, e):
+        g = e.generators
+        if len(g) != 1 or g[0].ifs or g[0].is_async:
+            return False
+        t = g[0].target
+        if isinstance(t, ast.Name):
+            return not (isinstance(e.elt, ast.Name) and e.elt.id == t.id) or isinstance(e, (ast.GeneratorExp, ast.SetComp))
+        return isinstance(t, ast.Tuple) and len(t.elts) == 2 and all(isinstance(x, ast.Name) for x in t.elts)
+
+    def map_comp(self, e):
+        """a comprehension / generator without a filter, consumed as the list of its items: `xs.map`"""
+        g = e.generators[0]
+        xs = self.expr(g.iter)
+        if not xs.typ.startswith('List '):
+            raise Unsupported(f'comprehension over {xs.typ}')
+        elem = xs.typ[5:]
+        inner = self.sub()
+        inner.fresh = self.fresh
+        if isinstance(g.target, ast.Name):
+            x = inner.gensym(lname(g.target.id))
+            inner.env[g.target.id] = Val(x, elem, path=g.target.id)
+            inner.narrow.pop(g.target.id, None)
+        else:
+            parts = _prod_parts(elem) if elem.startswith('Prod ') else ([elem[5:]] * 2 if elem.startswith('Pair ') else [])
+            if len(parts) != 2:
+                raise Unsupported(f'unpacking {elem} into two names')
+            x = inner.gensym('pair')
+            for i, t in enumerate(g.target.elts):
+                inner.env[t.id] = Val(f'{x}.{i + 1}', parts[i], path=t.id)
+                inner.narrow.pop(t.id, None)
+        v = inner.expr(e.elt)
+        if inner.pending:
+            raise Unsupported(f'`{self.inst.qual}`: a call that may raise inside a comprehension')
+        self.fresh = inner.fresh
+        return Val(f'(({xs.text}).map (fun {x} => {v.text}))', 'List ' + v.typ)
+
+    # ---- `==`, set membership and hash keys, directed by the static type ---------------------------------
+    #
+    # `eq_fn(T)`      Lean function text for Python's `a == b` at two values of type T
+    # `hasheq_fn(T)`  ... for `hash(a) == hash(b)`, read as "the keys handed to hash() are the same value" (DESIGN §3: CPython's
+    #                 hash is a function of the key; the key of a frozenset is the multiset of its members' keys)
+    # `mem_fn(T)`     the membership relation of a set / dict of T: hash first, then `==`
+    # `key_of(v)`     the key of a value: what its `__hash__` hands to `hash()`, component by component
+    _PLAIN = ('R', 'Int', 'Dt', 'Td', 'Bool')
+
+    def _inst_fn(self, inst):
+        ctx = [n for n, _t in self.u.ctx_params] if inst in self.u.insts else []
+        return ' '.join([inst.lean] + ctx)
+
+    def _parts(self, t):
+        if t.startswith('Pair '):
+            return [t[5:], t[5:]]
+        if t.startswith('Prod '):
+            return _prod_parts(t)
+        return None
+
+    def eq_fn(self, t, probe=False):
+        try:
+            return self._eq_fn(t)
+        except Unsupported:
+            if probe:
+                return None
+            raise
+
+    def _eq_fn(self, t):
+        ab = self.u.hooks.get('eq_abstract', {}).get(t)
+        if ab:
+            return ab
+        if t in self._PLAIN:
+            return '(fun a b => a == b)'
+        cls = self.u.class_of(t)
+        if cls:
+            inst = self.u.find(f'{cls}.__eq__', (t,))
+            if inst.raises:
+                raise Unsupported(f'`==` on {t} may raise')
+            return f'({self._inst_fn(inst)})'
+        if t.startswith('Opt '):
+            return f'(GV.Py.optEq {self._eq_fn(t[4:])})'
+        if t.startswith('List '):
+            return f'(GV.Obj.listEqBy {self._eq_fn(t[5:])})'
+        if t.startswith('Set '):
+            return f'(GV.Py.setEq {self.mem_fn(t[4:])})'
+        parts = self._parts(t)
+        if parts and len(parts) == 2:
+            return f'(GV.Py.pairEq {self._eq_fn(parts[0])} {self._eq_fn(parts[1])})'
+        raise Unsupported(f'`==` on {t}')
+
+    def hasheq_fn(self, t):
+        ab = self.u.hooks.get('hasheq_abstract', {}).get(t)
+        if ab:
+            return ab
+        if t in self._PLAIN:
+            return '(fun a b => a == b)'
+        cls = self.u.class_of(t)
+        if cls:
+            inst = self.u.find(f'{cls}.__hash__', ())
+            if inst.raises or 'Set ' in inst.value_type or inst.value_type in self.u.hooks.get('key_abstract_types', ()):
+                raise Unsupported(f'hash equality on {t}')
+            return f'(fun a b => {self._inst_fn(inst)} a == {self._inst_fn(inst)} b)'
+        if t.startswith('Opt '):
+            return f'(GV.Py.optEq {self.hasheq_fn(t[4:])})'
+        if t.startswith('List '):
+            return f'(GV.Obj.listEqBy {self.hasheq_fn(t[5:])})'
+        if t.startswith('Set '):
+            return f'(GV.Obj.msEqBy {self.hasheq_fn(t[4:])})'
+        parts = self._parts(t)
+        if parts and len(parts) == 2:
+            return f'(GV.Py.pairEq {self.hasheq_fn(parts[0])} {self.hasheq_fn(parts[1])})'
+        raise Unsupported(f'hash equality on {t}')
+
+    def mem_fn(self, t):
+        return f'(fun a b => {self.hasheq_fn(t)} a b && {self._eq_fn(t)} a b)'
+
+    def key_of_expr(self, e):
+        if isinstance(e, ast.Tuple) and len(e.elts) >= 2:
+            ks = [self.key_of_expr(x) for x in e.elts]
+            return Val('(' + ', '.join(k.text for k in ks) + ')', mk_prod(k.typ for k in ks))
+        return self.key_of(self.expr(e))
+
+    def key_of(self, v):
+        t = v.typ
+        ab = self.u.hooks.get('key_abstract', {}).get(t)
+        if ab:
+            return Val(f'({ab[0]} {_paren(v.text)})', ab[1])
+        if t in self._PLAIN:
+            return v
+        cls = self.u.class_of(t)
+        if cls:
+            inst = self.u.find(f'{cls}.__hash__', ())
+            return self.apply(inst, [v])
+        if t.startswith(('Opt ', 'List ', 'Set ')):
+            inner = t.split(' ', 1)[1]
+            k = self.key_of(Val('k', inner))
+            if k.text == 'k':
+                return v
+            if getattr(k, 'raises', False):
+                raise Unsupported(f'`__hash__` of {inner} may raise')
+            return Val(f'(({v.text}).map (fun k => {k.text}))', ('Opt ' if t.startswith('Opt ') else 'List ') + k.typ)
+        parts = self._parts(t)
+        if parts and len(parts) == 2:
+            ks = [self.key_of(Val(f'({v.text}).{i + 1}', p)) for i, p in enumerate(parts)]
+            return Val(f'({ks[0].text}, {ks[1].text})', mk_prod(k.typ for k in ks))
+        raise Unsupported(f'hash key of {t}')
+
+
+def _has_break(stmts):
+    """a `break` that belongs to this loop (not to a loop nested in its body)"""
+    for n in stmts:
+        if isinstance(n, ast.Break):
+            return True
+        if isinstance(n, (ast.For, ast.While)):
+            if _has_break(n.orelse):
+                return True
+            continue
+        for field in ('body', 'orelse'):
+            if _has_break([m for m in getattr(n, field, []) if isinstance(m, ast.stmt)]):
+                return True
+    return False
+
+
+def _same_type(a, b):
+    """equal type tags, where a pair of two `T` may be spelled `Pair T` (a tuple display) or `Prod T T` (an item of `zip`)"""
+    import re
+    norm = lambda t: re.sub(r'Pair (\w+)', r'Prod \1 \1', t)
+    return norm(a) == norm(b)
+
+
+def _int_const(n):
+    """the value of an integer literal (`1`, `-1`), else None"""
+    if isinstance(n, ast.Constant) and isinstance(n.value, int) and not isinstance(n.value, bool):
+        return n.value
+    if isinstance(n, ast.UnaryOp) and isinstance(n.op, ast.USub) and isinstance(n.operand, ast.Constant) \
+            and isinstance(n.operand.value, int) and not isinstance(n.operand.value, bool):
+        return -n.operand.value
+    return None
 
 
 def chars_literal(s):
